@@ -4,14 +4,19 @@ package main
 // optional TTL / validity start, witness set with vkey / bootstrap witnesses and
 // the scripts' ORIGINAL bytes), decode it with the era's real decoder and run the
 // era's UtxoValidationRules list; scripts are therefore always decoded, never
-// constructed.  `ev` ops call NativeScript.Evaluate/EvaluateWithGuards directly.
+// constructed.  `nsg` is `ns` for Dijkstra with a guards field (body key 14); `nsc` builds the
+// transaction as an in-memory struct (no preserved bytes: the rule's fallback path), scripts still
+// decoded.  `ev` ops call NativeScript.Evaluate/EvaluateWithGuards directly.
 
 import (
 	"bytes"
 	"errors"
 	"fmt"
+	"reflect"
+	"runtime"
 	"strconv"
 	"strings"
+	"time"
 
 	"github.com/blinklabs-io/gouroboros/cbor"
 	"github.com/blinklabs-io/gouroboros/ledger/allegra"
@@ -25,20 +30,29 @@ import (
 )
 
 func init() {
-	register(&Prop{ID: "C29", Gen: genC29, Run: runC29})
+	register(&Prop{ID: "C29", Gen: genC29, Run: runC29, Timeout: 10 * time.Minute})
 }
 
 // ---- script construction (generator side): bytes only
 
 type c29Gen struct {
-	r     *Rand
-	keys  [][]byte // key hashes of the universe
-	slots []uint64
+	r      *Rand
+	keys   [][]byte // key hashes of the universe
+	slots  []uint64
+	guardy bool // prefer guard scripts (Dijkstra guards tie)
 }
 
 func (g *c29Gen) arr(items ...[]byte) []byte {
 	if g.r.Chance(1, 8) {
 		return g9IndefArray(items...)
+	}
+	if g.r.Chance(1, 12) {
+		// non-minimal array header (98 nn / 99 nnnn)
+		out := g9HeadW(4, uint64(len(items)), Pick(g.r, 1, 1, 2, 4))
+		for _, it := range items {
+			out = append(out, it...)
+		}
+		return out
 	}
 	return g9Array(items...)
 }
@@ -71,6 +85,9 @@ func (g *c29Gen) uintv(n uint64) []byte {
 func (g *c29Gen) script(depth int) []byte {
 	r := g.r
 	k := r.Intn(10)
+	if g.guardy && r.Chance(1, 3) {
+		return g9Array(g9Uint(6), g9Array(g9Uint(uint64(r.Intn(2))), g9Bytes(g.keys[r.Intn(len(g.keys))])))
+	}
 	if depth <= 0 && k >= 1 && k <= 4 {
 		k = Pick(r, 0, 5, 6, 7)
 	}
@@ -215,7 +232,31 @@ func genC29(r *Rand, n int, tier string, emit func(string)) {
 		}
 		ns := Pick(r, 1, 1, 1, 2, 3)
 		var sb strings.Builder
-		fmt.Fprintf(&sb, "ns %s %s %s %s %d", eras[r.Intn(len(eras))], start, ttl, wl, ns)
+		switch r.Intn(8) {
+		case 0:
+			// Dijkstra with a guards field: key-hash form or credential form over the key universe
+			gs := []string{}
+			form := Pick(r, "k", "c")
+			seen := map[string]bool{}
+			for j := 0; j < 1+r.Intn(3); j++ {
+				h := hexs(g.keys[r.Intn(len(g.keys))])
+				e := h
+				if form == "c" {
+					e = fmt.Sprintf("%d.%s", r.Intn(2), h)
+				}
+				if !seen[e] {
+					seen[e] = true
+					gs = append(gs, e)
+				}
+			}
+			g.guardy = true
+			fmt.Fprintf(&sb, "nsg dijkstra %s %s %s %s:%s %d", start, ttl, wl, form, strings.Join(gs, ","), ns)
+		case 1:
+			// constructed transaction (no preserved bytes)
+			fmt.Fprintf(&sb, "nsc %s %s %s %s %d", Pick(r, "allegra", "conway"), start, ttl, wl, ns)
+		default:
+			fmt.Fprintf(&sb, "ns %s %s %s %s %d", eras[r.Intn(len(eras))], start, ttl, wl, ns)
+		}
 		for k := 0; k < ns; k++ {
 			var sc []byte
 			if r.Chance(1, 40) {
@@ -293,65 +334,176 @@ func runC29(op string) string {
 			creds = append(creds, common.Credential{CredType: uint(t), Credential: common.CredentialHash(common.NewBlake2b224(b))})
 		}
 		return b01(ns.EvaluateWithGuards(0, st, en, kh, creds))
-	case "ns":
-		if len(f) < 6 {
+	case "ns", "nsg", "nsc":
+		return c29RunTx(f)
+	}
+	return "bad-op"
+}
+
+func c29RunTx(f []string) string {
+	kind := f[0]
+	off := 0
+	guardsTok := "-"
+	if kind == "nsg" {
+		if len(f) < 7 {
 			return "bad-op"
 		}
-		era := f[1]
-		k, err := strconv.Atoi(f[5])
-		if err != nil || len(f) != 6+k || k < 1 {
+		guardsTok = f[5]
+		off = 1
+	}
+	if len(f) < 6+off {
+		return "bad-op"
+	}
+	era := f[1]
+	k, err := strconv.Atoi(f[5+off])
+	if err != nil || len(f) != 6+off+k || k < 1 {
+		return "bad-op"
+	}
+	var startV, ttlV *uint64
+	if f[2] != "-" {
+		v, err := strconv.ParseUint(f[2], 10, 64)
+		if err != nil {
 			return "bad-op"
 		}
-		body := [][]byte{g9Uint(0), g9Array(), g9Uint(1), g9Array(), g9Uint(2), g9Uint(0)}
-		if f[3] != "-" {
-			v, err := strconv.ParseUint(f[3], 10, 64)
-			if err != nil {
-				return "bad-op"
-			}
-			body = append(body, g9Uint(3), g9Uint(v))
+		startV = &v
+	}
+	if f[3] != "-" {
+		v, err := strconv.ParseUint(f[3], 10, 64)
+		if err != nil {
+			return "bad-op"
 		}
-		if f[2] != "-" {
-			v, err := strconv.ParseUint(f[2], 10, 64)
-			if err != nil {
-				return "bad-op"
-			}
-			body = append(body, g9Uint(8), g9Uint(v))
+		ttlV = &v
+	}
+	body := [][]byte{g9Uint(0), g9Array(), g9Uint(1), g9Array(), g9Uint(2), g9Uint(0)}
+	if ttlV != nil {
+		body = append(body, g9Uint(3), g9Uint(*ttlV))
+	}
+	if startV != nil {
+		body = append(body, g9Uint(8), g9Uint(*startV))
+	}
+	if guardsTok != "-" {
+		if era != "dijkstra" || len(guardsTok) < 3 {
+			return "bad-op"
 		}
-		var vk, bw [][]byte
-		for _, w := range g9SplitList(f[4]) {
-			p := strings.Split(w[1:], "=")
-			if len(p) != 2 {
-				return "bad-op"
-			}
-			key, ok1 := unhex(p[0])
-			hash, ok2 := unhex(p[1])
-			if !ok1 || !ok2 || len(key) != 32 || !bytes.Equal(hash, g9Blake224(key)) {
-				return "bad-op"
-			}
-			switch w[0] {
-			case 'v':
-				vk = append(vk, g9Array(g9Bytes(key), g9Bytes(make([]byte, 64))))
-			case 'b':
-				bw = append(bw, g9Array(g9Bytes(key), g9Bytes(make([]byte, 64)), g9Bytes(make([]byte, 32)), g9Bytes([]byte{0xa0})))
+		items := [][]byte{}
+		for _, g := range strings.Split(guardsTok[2:], ",") {
+			switch guardsTok[0] {
+			case 'k':
+				h, ok := unhex(g)
+				if !ok || len(h) != 28 {
+					return "bad-op"
+				}
+				items = append(items, g9Bytes(h))
+			case 'c':
+				p := strings.Split(g, ".")
+				if len(p) != 2 {
+					return "bad-op"
+				}
+				t, err := strconv.ParseUint(p[0], 10, 8)
+				h, ok := unhex(p[1])
+				if err != nil || !ok || len(h) != 28 {
+					return "bad-op"
+				}
+				items = append(items, g9Array(g9Uint(t), g9Bytes(h)))
 			default:
 				return "bad-op"
 			}
 		}
-		scripts := [][]byte{}
-		refs := []string{}
-		for i := 0; i < k; i++ {
-			p := strings.Split(f[6+i], "=")
-			if len(p) != 2 {
-				return "bad-op"
-			}
-			sc, ok := unhex(p[0])
-			ref, ok2 := unhex(p[1])
-			if !ok || !ok2 || !bytes.Equal(ref, g9Blake224(append([]byte{0x00}, sc...))) {
-				return "bad-op"
-			}
-			scripts = append(scripts, sc)
-			refs = append(refs, p[1])
+		body = append(body, g9Uint(14), g9Array(items...))
+	}
+	type wit struct {
+		kind byte
+		key  []byte
+	}
+	var wits []wit
+	var vk, bw [][]byte
+	for _, w := range g9SplitList(f[4]) {
+		p := strings.Split(w[1:], "=")
+		if len(p) != 2 {
+			return "bad-op"
 		}
+		key, ok1 := unhex(p[0])
+		hash, ok2 := unhex(p[1])
+		if !ok1 || !ok2 || len(key) != 32 || !bytes.Equal(hash, g9Blake224(key)) {
+			return "bad-op"
+		}
+		wits = append(wits, wit{w[0], key})
+		switch w[0] {
+		case 'v':
+			vk = append(vk, g9Array(g9Bytes(key), g9Bytes(make([]byte, 64))))
+		case 'b':
+			bw = append(bw, g9Array(g9Bytes(key), g9Bytes(make([]byte, 64)), g9Bytes(make([]byte, 32)), g9Bytes([]byte{0xa0})))
+		default:
+			return "bad-op"
+		}
+	}
+	scripts := [][]byte{}
+	for i := 0; i < k; i++ {
+		p := strings.Split(f[6+off+i], "=")
+		if len(p) != 2 {
+			return "bad-op"
+		}
+		sc, ok := unhex(p[0])
+		ref, ok2 := unhex(p[1])
+		if !ok || !ok2 || !bytes.Equal(ref, g9Blake224(append([]byte{0x00}, sc...))) {
+			return "bad-op"
+		}
+		scripts = append(scripts, sc)
+	}
+	var tx common.Transaction
+	var rules []common.UtxoValidationRuleFunc
+	var derr error
+	if kind == "nsc" {
+		// in-memory transaction, scripts decoded one by one
+		decodedScripts := make([]common.NativeScript, k)
+		for i := range scripts {
+			if _, err := cbor.Decode(scripts[i], &decodedScripts[i]); err != nil {
+				return "err"
+			}
+		}
+		var vkw []common.VkeyWitness
+		var bws []common.BootstrapWitness
+		for _, w := range wits {
+			if w.kind == 'v' {
+				vkw = append(vkw, common.VkeyWitness{Vkey: w.key, Signature: make([]byte, 64)})
+			} else {
+				bws = append(bws, common.BootstrapWitness{PublicKey: w.key, Signature: make([]byte, 64), ChainCode: make([]byte, 32), Attributes: []byte{0xa0}})
+			}
+		}
+		switch era {
+		case "allegra":
+			t := &allegra.AllegraTransaction{}
+			if startV != nil {
+				t.Body.TxValidityIntervalStart = *startV
+			}
+			if ttlV != nil {
+				t.Body.Ttl = *ttlV
+			}
+			t.WitnessSet.VkeyWitnesses = vkw
+			t.WitnessSet.BootstrapWitnesses = bws
+			t.WitnessSet.WsNativeScripts = decodedScripts
+			tx = t
+			rules = allegra.UtxoValidationRules
+		case "conway":
+			t := &conway.ConwayTransaction{}
+			if startV != nil {
+				t.Body.TxValidityIntervalStart = *startV
+			}
+			if ttlV != nil {
+				t.Body.Ttl = *ttlV
+			}
+			t.WitnessSet.VkeyWitnesses = cbor.NewSetType(vkw, false)
+			t.WitnessSet.BootstrapWitnesses = cbor.NewSetType(bws, false)
+			t.WitnessSet.WsNativeScripts = cbor.NewSetType(decodedScripts, false)
+			tx = t
+			rules = conway.UtxoValidationRules
+		default:
+			return "bad-op"
+		}
+		if len(tx.Cbor()) != 0 {
+			return "bad-op preserved"
+		}
+	} else {
 		ws := [][]byte{}
 		if len(vk) > 0 {
 			ws = append(ws, g9Uint(0), g9Array(vk...))
@@ -366,9 +518,6 @@ func runC29(op string) string {
 		} else {
 			txb = g9Array(g9Map(body...), g9Map(ws...), []byte{0xf5}, []byte{0xf6})
 		}
-		var tx common.Transaction
-		var rules []common.UtxoValidationRuleFunc
-		var derr error
 		switch era {
 		case "allegra":
 			tx, derr = allegra.NewAllegraTransactionFromCbor(txb)
@@ -394,34 +543,44 @@ func runC29(op string) string {
 		if derr != nil {
 			return "err"
 		}
-		decoded := tx.Witnesses().NativeScripts()
-		if len(decoded) != k {
-			return fmt.Sprintf("err scripts=%d", len(decoded))
-		}
-		hashes := make([]string, k)
-		spans := []string{}
-		for i := range decoded {
-			h := decoded[i].Hash()
-			hashes[i] = hexs(h[:])
-			c29Subs(&decoded[i], &spans)
-		}
-		ls := mockledger.NewLedgerStateBuilder().Build()
-		res := "ok"
-		for _, rule := range rules {
-			err := g9SafeRule(rule, tx, 50, ls, nil)
-			var nf allegra.NativeScriptFailedError
-			if err != nil && errors.As(err, &nf) {
-				idx := -1
-				for i := range hashes {
-					if hashes[i] == hexs(nf.ScriptHash[:]) {
-						idx = i
-						break
-					}
-				}
-				res = fmt.Sprintf("fail:%d", idx)
-			}
-		}
-		return "hashes=" + strings.Join(hashes, ",") + " res=" + res + " spans=" + strings.Join(spans, ",")
 	}
-	return "bad-op"
+	decoded := tx.Witnesses().NativeScripts()
+	if len(decoded) != k {
+		return fmt.Sprintf("err scripts=%d", len(decoded))
+	}
+	hashes := make([]string, k)
+	spans := []string{}
+	for i := range decoded {
+		h := decoded[i].Hash()
+		hashes[i] = hexs(h[:])
+		c29Subs(&decoded[i], &spans)
+	}
+	ls := mockledger.NewLedgerStateBuilder().Build()
+	res := "ok"
+	found := false
+	for _, rule := range rules {
+		// only the era's native-script rule, taken from the era's rule list
+		if !strings.HasSuffix(runtime.FuncForPC(reflect.ValueOf(rule).Pointer()).Name(), ".UtxoValidateNativeScripts") {
+			continue
+		}
+		found = true
+		err := g9SafeRule(rule, tx, 50, ls, nil)
+		var nf allegra.NativeScriptFailedError
+		if err != nil && errors.As(err, &nf) {
+			idx := -1
+			for i := range hashes {
+				if hashes[i] == hexs(nf.ScriptHash[:]) {
+					idx = i
+					break
+				}
+			}
+			res = fmt.Sprintf("fail:%d", idx)
+		} else if err != nil {
+			res = "rule-err"
+		}
+	}
+	if !found {
+		return "rule-not-listed"
+	}
+	return "hashes=" + strings.Join(hashes, ",") + " res=" + res + " spans=" + strings.Join(spans, ",")
 }
